@@ -170,6 +170,13 @@ class Flow:
 
 
 def analyse(fn, where, rdm, multi):
+    for n in ast.walk(fn):
+        # attribute access the frames cannot see
+        if isinstance(n, ast.Call) and isinstance(n.func, ast.Name) and n.func.id in ("getattr", "setattr", "delattr", "vars"):
+            if n.args and isinstance(n.args[0], ast.Name) and n.args[0].id == "self":
+                fail(f"{where}:{n.lineno}", f"{n.func.id}(self, ...) in a machine method")
+        if isinstance(n, ast.Attribute) and isinstance(n.value, ast.Name) and n.value.id == "self" and n.attr == "__dict__":
+            fail(f"{where}:{n.lineno}", "self.__dict__ in a machine method")
     fl = Flow(where, rdm, multi)
     must = set()
     fl.block(fn.body, must)
@@ -431,6 +438,28 @@ def main():
         fail(path, "two run transitions with the same trigger")
     body += "Definition trigger_callbacks : list (string * list string) :=\n  [" + ";\n   ".join(
         f"({q(t)}, {qlist(l)})" for t, l in trig_cbs) + "].\n\n"
+    # what pandora.run returns
+    ipath = os.path.join(REPO, "pandora", "__init__.py")
+    itext = open(ipath).read()
+    run_fn = next((n for n in ast.parse(itext).body if isinstance(n, ast.FunctionDef) and n.name == "run"), None)
+    if run_fn is None:
+        fail(ipath, "function run not found")
+    mparam = run_fn.args.args[0].arg
+    rets = [n for n in ast.walk(run_fn) if isinstance(n, ast.Return)]
+    if len(rets) != 1 or not isinstance(rets[0].value, ast.Tuple):
+        fail(f"{ipath}:{run_fn.lineno}", "pandora.run does not end with one `return a, b`")
+    returned = []
+    for e in rets[0].value.elts:
+        if not (isinstance(e, ast.Attribute) and isinstance(e.value, ast.Name) and e.value.id == mparam):
+            fail(f"{ipath}:{rets[0].lineno}", "pandora.run returns something else than machine attributes")
+        returned.append(e.attr)
+    # the only other uses of the machine in pandora.run: run_prepare, run, run_exit, num_scales, state
+    for n in ast.walk(run_fn):
+        if isinstance(n, ast.Attribute) and isinstance(n.value, ast.Name) and n.value.id == mparam:
+            if n.attr not in set(returned) | {"run_prepare", "run", "run_exit", "num_scales", "state"}:
+                fail(f"{ipath}:{n.lineno}", f"pandora.run uses machine.{n.attr}")
+    sources.append((ipath, f"run lines {run_fn.lineno}-{run_fn.end_lineno}", sha1_of(ast.get_source_segment(itext, run_fn) or "")))
+    body += f"Definition returned_attrs : list string := {qlist(returned)}.\n"
     body += f"Definition first_callbacks : list string := {qlist(first)}.\n"
     body += f"Definition multiscale_callbacks : list string := {qlist(multiscale_cbs)}.\n\n"
 
